@@ -13,10 +13,18 @@ pub proof fn axiom_cow_cell_ref(c: &VCell) ensures cow_cell::<&VCell>(c) == *c {
 pub assume_specification<'a, T: Into<std::borrow::Cow<'a, VCell>>> [Heap::get] (h: &Heap, v: T) -> (r: VCell) ensures r == heap_deref(*h, cow_cell(v));
 pub assume_specification [Heap::get_as_cell] (h: &Heap, v: &VCell) -> (r: Cell);
 /// allocation through the (here opaque) heap: nothing is known about the result
-/// (proved in unit `heap` against the real body: the cell handed back holds the value put; a pointer is passed through)
+/// c is a pointer to an allocated cell
+pub uninterp spec fn heap_live(h: Heap, c: VCell) -> bool;
+/// (proved in unit `heap` against the real body) a pointer is passed through and nothing changes; any other value is
+/// boxed in a cell that was free and now is allocated and holds it; every other cell keeps its meaning and its liveness
 pub assume_specification<T: Into<VCell> + Clone> [Heap::put] (h: &mut Heap, v: T) -> (r: VCell)
-    ensures <T as vstd::std_specs::convert::IntoSpec<VCell>>::obeys_into_spec() && !(<T as vstd::std_specs::convert::IntoSpec<VCell>>::into_spec(v) is Ptr)
-        ==> r is Ptr && heap_deref(*final(h), r) == <T as vstd::std_specs::convert::IntoSpec<VCell>>::into_spec(v);
+    ensures <T as vstd::std_specs::convert::IntoSpec<VCell>>::obeys_into_spec() ==> ({
+        let x = <T as vstd::std_specs::convert::IntoSpec<VCell>>::into_spec(v);
+        &&& x is Ptr ==> r == x && *final(h) == *old(h)
+        &&& !(x is Ptr) ==> r is Ptr && heap_deref(*final(h), r) == x && !heap_live(*old(h), r) && heap_live(*final(h), r)
+        &&& forall|c: VCell| c != r ==> #[trigger] heap_deref(*final(h), c) == heap_deref(*old(h), c)
+        &&& forall|c: VCell| #[trigger] heap_live(*old(h), c) ==> heap_live(*final(h), c)
+    });
 pub assume_specification<T: Into<VCell> + Clone> [Heap::maybe_put] (h: &mut Heap, v: T) -> (r: VCell);
 /// rendering a datum / a number for an error message cannot fail
 impl vstd::std_specs::fmt::DisplaySpecImpl for Cell { open spec fn fmt_req(&self, f: &core::fmt::Formatter<'_>) -> bool { true } }
